@@ -5,6 +5,9 @@ import ObiVerif.Model.DemuxState
 Theorems on `Model/DemuxState.lean`: the mutable state of `obingslibrary.NGSLibrary` (parameters,
 sample tables, compiled patterns) threaded through worker constructions and reads.
 -/
+-- sequential elaboration (address-space limit of the build)
+set_option Elab.async false
+
 namespace ObiVerif.Props.C12
 
 open ObiVerif.Demux ObiVerif.DemuxState
@@ -114,5 +117,39 @@ theorem worker_options_persist :
     revert this
     decide
   · decide
+
+end ObiVerif.Props.C12
+
+namespace ObiVerif.Props.C12
+
+open ObiVerif.NgsFilter
+
+/-! ## `@param` lines: order semantics -/
+
+/-- the `@param` lines are applied one after the other, in file order, each on the library left by the previous
+ones: a sheet with the lines `ps ++ qs` is the sheet with `qs` applied to what `ps` gives — so a later line
+OVERRIDES an earlier conflicting one for the markers / sides it addresses (a global `spacer` after a per-primer
+`spacer` resets that primer, a per-primer line after a global one refines it), and a fatal / malformed line
+stops the reading whatever follows -/
+theorem params_applied_in_order (lib : Lib) (ps qs : List (List String)) :
+    applyParams lib (ps ++ qs) = (applyParams lib ps >>= fun l => applyParams l qs) := by
+  induction ps generalizing lib with
+  | nil => simp [applyParams, bind, Except.bind]
+  | cons r rest ih =>
+    simp only [List.cons_append, applyParams]
+    split
+    · rename_i name v vs
+      simp only [bind, Except.bind]
+      cases h : applyParam lib name (v :: vs) with
+      | error e => rfl
+      | ok l => simpa [bind, Except.bind] using ih l
+    · rfl
+    · rfl
+
+/-- the value a side ends with is the one of the LAST line that addresses it: two global `spacer` lines -/
+theorem last_global_param_wins (m : LMarker) (a b : Int) :
+    (setSide m .spacer true (.int a)).bind (fun m' => setSide m' .spacer true (.int b)) =
+      setSide m .spacer true (.int b) := by
+  simp [setSide, Option.bind]
 
 end ObiVerif.Props.C12
